@@ -77,3 +77,33 @@ func IsBranch(op byte) bool {
 	}
 	return false
 }
+
+// HexVal is the value of a lower-case hexadecimal digit character, 255 for any other character.
+func HexVal(c byte) uint32 {
+	if c >= '0' && c <= '9' {
+		return uint32(c - '0')
+	}
+	if c >= 'a' && c <= 'f' {
+		return uint32(c-'a') + 10
+	}
+	return 255
+}
+
+// TraceName is the mnemonic a trace line shows: the ISA mnemonic, with the long jumps $5C / $DC shown under
+// their common alias "jmp".
+func TraceName(op byte) string {
+	if Tab[op].Ins == iJML {
+		return "jmp"
+	}
+	return Name(op)
+}
+
+// TraceTail is the number of characters of a cpu65c816 trace line after the decimal cycle count. It is layout
+// knowledge of that format, not truth: 70, except for the stack-relative operand form "$xx, Sn", which the
+// disassembler pads to 11 instead of 13 columns.
+func TraceTail(op byte) int {
+	if Tab[op].Mode == mSR {
+		return 68
+	}
+	return 70
+}
